@@ -133,11 +133,12 @@ impl H {
     pub fn submit_sized(&mut self, kind: Kind, payload: usize) -> u64 { self.payload_len = payload; let t = self.cfg.ack_timeout; let r = self.submit_with_timeout(kind, t); self.payload_len = 3; r }
 
     /// publish on an explicit topic (the tag is still recoverable from the results list)
-    pub fn submit_publish(&mut self, topic: &str, qos: QualityOfService, payload: usize) -> u64 {
+    pub fn submit_publish(&mut self, topic: &str, qos: QualityOfService, payload: usize) -> u64 { self.submit_publish_with_alias(topic, qos, payload, None) }
+    pub fn submit_publish_with_alias(&mut self, topic: &str, qos: QualityOfService, payload: usize, topic_alias: Option<u16>) -> u64 {
         let tag = self.next_tag; self.next_tag += 1;
         self.log.push(format!("publish {} {:?} {}B #{}", topic, qos, payload, tag));
         let results = self.results.clone();
-        let packet = Box::new(MqttPacket::Publish(PublishPacket { topic: topic.to_string(), qos, payload: Some(vec![7u8; payload]), ..Default::default() }));
+        let packet = Box::new(MqttPacket::Publish(PublishPacket { topic: topic.to_string(), qos, payload: Some(vec![7u8; payload]), topic_alias, ..Default::default() }));
         let handler: ResponseHandler<PublishResult> = Box::new(move |r: PublishResult| {
             let o = match r { Ok(_) => Outcome::Ok("published".into()), Err(e) => Outcome::Err(err_name(&e)) };
             results.lock().unwrap().push((tag, o)); Ok(()) });
